@@ -19,6 +19,8 @@ pub mod nitrogql_error { pub struct PositionedError { pub x: u8 } }
 //@   labelled_blocks is_mismatch:bool null_is_allowed:bool
 //@   enumerate_for
 //@   wrap_chain vx_filter_count filter,count
+//@   wrap_chain vx_find_map find_map
+//@   wrap_chain vx_copied_chain_collect copied,chain,collect
 //@   rewrite T18 1 "let Value::ObjectValue(value) = value else {" => "let Value::ObjectValue(value__obj) = value else { /* vx:T18 alpha-renamed shadowing binding `value` -> `value__obj` */"
 //@   rewrite T18 1 "let value_field = value\n" => "let value_field = value__obj\n"
 //@   rewrite T18 2 "value.fields" => "value__obj.fields"
